@@ -32,6 +32,7 @@ impl ToTokens for DefaultExpression<'_> {
             }
             DefaultExpression::Explicit(path) => {
                 // Use quote_spanned to properly set the span of the parentheses
+                let path = super::expr_style(path);
                 quote_spanned!(path.span()=>#path())
             }
             DefaultExpression::Trait { span } => {
